@@ -26,6 +26,7 @@ RULE = (
     "incl. 0, negatives, 2^63..2^64-1 and strings incl. digit strings; both validation backends (the fallback backend in a fresh interpreter); oracle: independent JSON-RPC 2.0 grammar "
     "on the emitted wire form + parse_message(emitted) has the same kind and type-strictly identical id/method/params/result/error; non-trivial = payload has a nested null, non-ASCII/control "
     "character or int beyond 2^53, or the id is 0 / negative / digit string / >=2^63; distinct = distinct (emitter, id, payload)"
+    "; added in rounds 6-7 of the seeded changes: transport legs also send messages built by calling the envelope classes directly; 12 awkward texts in every textual position through each serialiser; a share of cases with logging at DEBUG"
 )
 ASSUMPTIONS = [
     "top-level result=None is documented to become {} and is excluded from the result domain; bool ids are outside the id domain; the empty-string id is excluded for emitters that treat a falsy id as 'generate one'",
